@@ -35,12 +35,25 @@ type concParty struct {
 	// FailAfter: a failing writer gives up (as a run whose input turns out to
 	// be bad does) after this many Write calls.
 	FailAfter int `json:"fail_after,omitempty"`
+	// Key: which of the scenario's entries the party works on.
+	Key int `json:"key,omitempty"`
+	// After: what a writer does with its File once it is done with it, beyond
+	// the one call that is needed - legal, if sloppy, uses of the API:
+	// "close-twice", "discard-after-close" (defer f.Discard(); return f.Close()).
+	After string `json:"after,omitempty"`
 }
 
 type concScenario struct {
-	Hash    string      `json:"hash"`
-	Key     [2]string   `json:"key"`
-	Body    bodySpec    `json:"body"`
+	Hash string    `json:"hash"`
+	Key  [2]string `json:"key"`
+	Body bodySpec  `json:"body"`
+	// Key2 / Body2: a second entry, for parties with Key == 1: a process that
+	// writes two entries at overlapping times (a server, a batch job).
+	Key2  *[2]string `json:"key2,omitempty"`
+	Body2 *bodySpec  `json:"body2,omitempty"`
+	// Prelude: writers that run to their end, one after the other, in the
+	// same address space before the parties start.
+	Prelude []concParty `json:"prelude,omitempty"`
 	Level   int         `json:"level"`
 	Seeded  bool        `json:"seeded,omitempty"` // a finished entry is there before anybody starts
 	Parties []concParty `json:"parties"`
@@ -62,12 +75,13 @@ type concResult struct {
 }
 
 type concRun struct {
-	sc   *concScenario
-	w    *simos.World
-	path string
-	body []byte
-	res  *core.Result
-	vs   []core.Violation
+	sc     *concScenario
+	w      *simos.World
+	path   string
+	body   []byte
+	bodies [2][]byte // per key
+	res    *core.Result
+	vs     []core.Violation
 }
 
 func (r *concRun) violate(class, sig, detail string) {
@@ -75,9 +89,13 @@ func (r *concRun) violate(class, sig, detail string) {
 	r.vs = append(r.vs, core.Violation{Class: class, Signature: sig, Detail: detail, Scenario: b})
 }
 
-func concKeys(sc *concScenario) (rs, ds []byte, path string) {
-	rs, _ = hex.DecodeString(sc.Key[0])
-	ds, _ = hex.DecodeString(sc.Key[1])
+func concKeys(sc *concScenario, ki int) (rs, ds []byte, path string) {
+	k := sc.Key
+	if ki == 1 && sc.Key2 != nil {
+		k = *sc.Key2
+	}
+	rs, _ = hex.DecodeString(k[0])
+	ds, _ = hex.DecodeString(k[1])
 	h := newHashByName(sc.Hash)
 	h.Write(append(append([]byte(nil), rs...), ds...))
 	return rs, ds, libCacheDir + "/" + hex.EncodeToString(h.Sum(nil))
@@ -88,7 +106,7 @@ func concKeys(sc *concScenario) (rs, ds []byte, path string) {
 // end finalise it - or, when the run failed, unlink and discard it.
 func writerBody(sc *concScenario, p concParty, body []byte) {
 	h := newHashByName(sc.Hash)
-	rs, ds, _ := concKeys(sc)
+	rs, ds, _ := concKeys(sc, keyOf(sc, p))
 	if f, err := cache.Open(libCacheDir, h, append([]byte(nil), rs...), append([]byte(nil), ds...)); err == nil {
 		// a hit: the run replays the entry instead of writing one
 		io.Copy(io.Discard, f)
@@ -141,11 +159,19 @@ func writerBody(sc *concScenario, p concParty, body []byte) {
 	if err := f.Close(); err != nil && !hasDiscard(f) {
 		simos.Remove(f.Name())
 	}
+	switch p.After {
+	case "close-twice":
+		f.Close()
+	case "discard-after-close":
+		if hasDiscard(f) {
+			discard(f)
+		}
+	}
 }
 
-func readerBody(sc *concScenario, out *concResult) {
+func readerBody(sc *concScenario, p concParty, out *concResult) {
 	h := newHashByName(sc.Hash)
-	rs, ds, _ := concKeys(sc)
+	rs, ds, _ := concKeys(sc, keyOf(sc, p))
 	f, err := cache.Open(libCacheDir, h, append([]byte(nil), rs...), append([]byte(nil), ds...))
 	if err != nil {
 		if f != nil {
@@ -171,8 +197,12 @@ func (r *concRun) exec() {
 	r.w.MkdirAllRaw(libCacheDir)
 	r.w.MkdirAllRaw("/tmp")
 	simos.W = r.w
-	_, _, r.path = concKeys(sc)
+	_, _, r.path = concKeys(sc, 0)
 	r.body = sc.Body.bytes()
+	r.bodies[0] = r.body
+	if sc.Key2 != nil && sc.Body2 != nil {
+		r.bodies[1] = sc.Body2.bytes()
+	}
 
 	// what a finished, undisturbed write of this entry looks like
 	solo := simos.NewWorld(simos.Env{CacheHome: libCacheHome, TmpDir: "/tmp"}, false)
@@ -189,6 +219,24 @@ func (r *concRun) exec() {
 	}
 	if sc.Seeded {
 		r.w.PutFile(r.path, image)
+	}
+
+	// writers that come and go, one after the other, before anybody overlaps
+	for _, p := range sc.Prelude {
+		p.KillAt = -1
+		r.w.StartProc(simos.ProcSpec{SinkLimit: -1})
+		func() {
+			defer func() {
+				if x := recover(); x != nil {
+					r.violate("panic", panicSite(fmt.Sprintf("%v\n%s", x, debug.Stack())), fmt.Sprintf("a writer of the prelude panicked: %v", x))
+				}
+			}()
+			writerBody(sc, p, r.bodies[keyOf(sc, p)])
+		}()
+		r.w.EndProc(0)
+	}
+	if len(r.vs) > 0 {
+		return
 	}
 
 	n := len(sc.Parties)
@@ -230,9 +278,9 @@ func (r *concRun) exec() {
 					}
 				}()
 				if sc.Parties[i].Role == "reader" {
-					readerBody(sc, results[i])
+					readerBody(sc, sc.Parties[i], results[i])
 				} else {
-					writerBody(sc, sc.Parties[i], r.body)
+					writerBody(sc, sc.Parties[i], r.bodies[keyOf(sc, sc.Parties[i])])
 				}
 			}()
 			results[i].finished = true
@@ -322,69 +370,87 @@ func (r *concRun) exec() {
 			continue
 		}
 		r.res.Probes["concurrent_reader_opened_the_entry"]++
+		want := r.bodies[keyOf(sc, sc.Parties[i])]
 		switch {
-		case res.readErr == nil && !bytes.Equal(res.got, r.body):
-			r.violate("wrong-bytes", "concurrent:"+shape, fmt.Sprintf("party %d, a reader, opened the entry while others were working on it and read %d bytes that are not the %d written, without an error", i, len(res.got), len(r.body)))
+		case res.readErr == nil && !bytes.Equal(res.got, want):
+			r.violate("wrong-bytes", "concurrent:"+shape, fmt.Sprintf("party %d, a reader, opened the entry while others were working on it and read %d bytes that are not the %d written, without an error", i, len(res.got), len(want)))
 		case res.readErr != nil:
-			r.violate("read-error-after-open", "concurrent:"+shape, fmt.Sprintf("party %d, a reader, opened the entry (all digests verified) while others were working on it; reading it then failed after %d of %d bytes: %v", i, len(res.got), len(r.body), res.readErr))
+			r.violate("read-error-after-open", "concurrent:"+shape, fmt.Sprintf("party %d, a reader, opened the entry (all digests verified) while others were working on it; reading it then failed after %d of %d bytes: %v", i, len(res.got), len(want), res.readErr))
 		}
 	}
-	// (S) when everybody is gone: the entry opens only if it is a finished write
-	var oerr, rerr error
-	var got []byte
-	r.w.StartProc(simos.ProcSpec{SinkLimit: -1})
-	func() {
-		defer func() {
-			if x := recover(); x != nil {
-				oerr = fmt.Errorf("panic: %v", x)
-				r.violate("panic", panicSite(fmt.Sprintf("%v\n%s", x, debug.Stack())), fmt.Sprintf("Open panicked after the parties had gone: %v", x))
+	// (S) when everybody is gone: an entry opens only if it is a finished write
+	outcome, opens := "absent", false
+	nkeys := 1
+	if sc.Key2 != nil && sc.Body2 != nil {
+		nkeys = 2
+	}
+	for ki := 0; ki < nkeys; ki++ {
+		var oerr, rerr error
+		var got []byte
+		want := r.bodies[ki]
+		rs, ds, path := concKeys(sc, ki)
+		r.w.StartProc(simos.ProcSpec{SinkLimit: -1})
+		func() {
+			defer func() {
+				if x := recover(); x != nil {
+					oerr = fmt.Errorf("panic: %v", x)
+					r.violate("panic", panicSite(fmt.Sprintf("%v\n%s", x, debug.Stack())), fmt.Sprintf("Open panicked after the parties had gone: %v", x))
+				}
+			}()
+			h := newHashByName(sc.Hash)
+			f, err := cache.Open(libCacheDir, h, rs, ds)
+			oerr = err
+			if err != nil {
+				if f != nil {
+					f.Close()
+				}
+				return
 			}
+			got, rerr = io.ReadAll(f)
+			f.Close()
 		}()
-		h := newHashByName(sc.Hash)
-		rs, ds, _ := concKeys(sc)
-		f, err := cache.Open(libCacheDir, h, rs, ds)
-		oerr = err
-		if err != nil {
-			if f != nil {
-				f.Close()
+		r.w.EndProc(0)
+		cur, exists := r.w.GetFile(path)
+		if ki == 0 {
+			switch {
+			case exists && bytes.Equal(cur, image):
+				outcome = "complete"
+			case exists:
+				outcome = "other"
 			}
-			return
+			opens = oerr == nil
 		}
-		got, rerr = io.ReadAll(f)
-		f.Close()
-	}()
-	r.w.EndProc(0)
-	cur, exists := r.w.GetFile(r.path)
-	outcome := "absent"
-	switch {
-	case exists && bytes.Equal(cur, image):
-		outcome = "complete"
-	case exists:
-		outcome = "other"
-	}
-	if oerr == nil {
+		if oerr != nil {
+			continue
+		}
 		r.res.Probes["concurrent_final_entry_opens"]++
 		// The image of an undisturbed write is the reference, but what the
 		// statement demands is about reading: an entry that opens must read
 		// back as exactly the bytes that were written.
-		switch {
-		case rerr != nil || !bytes.Equal(got, r.body):
+		if rerr != nil || !bytes.Equal(got, want) {
 			same := 0
-			for same < len(got) && same < len(r.body) && got[same] == r.body[same] {
+			for same < len(got) && same < len(want) && got[same] == want[same] {
 				same++
 			}
-			r.violate("accepted-non-image", "concurrent:"+shape, fmt.Sprintf("after %s had worked on one entry under schedule %v..., Open returned nil (all three digests verify) on %d bytes that no single writer wrote; reading gives %d bytes of which the first %d agree with the %d written, err=%v", shape, trimInts(sc.Schedule, 12), len(cur), len(got), same, len(r.body), rerr))
-		case !exists || !bytes.Equal(cur, image):
+			r.violate("accepted-non-image", "concurrent:"+shape, fmt.Sprintf("after %s had worked on the cache under schedule %v..., Open of entry %d returned nil (all three digests verify) on %d bytes that no single writer wrote; reading gives %d bytes of which the first %d agree with the %d written, err=%v", shape, trimInts(sc.Schedule, 12), ki, len(cur), len(got), same, len(want), rerr))
+		} else if ki == 0 && (!exists || !bytes.Equal(cur, image)) {
 			r.res.Probes["concurrent_final_entry_reads_back_but_differs_from_the_solo_image"]++
 		}
 	}
-	k := fmt.Sprintf("conc|%s|%s|final=%s|open=%v", shape, sc.Body.class(), outcome, oerr == nil)
+	k := fmt.Sprintf("conc|%s|%s|keys=%d|prelude=%d|final=%s|open=%v", shape, sc.Body.class(), nkeys, len(sc.Prelude), outcome, opens)
 	for _, have := range r.res.Keys {
 		if have == k {
 			return
 		}
 	}
 	r.res.Keys = append(r.res.Keys, k)
+}
+
+func keyOf(sc *concScenario, p concParty) int {
+	if p.Key == 1 && sc.Key2 != nil && sc.Body2 != nil {
+		return 1
+	}
+	return 0
 }
 
 func trimInts(s []int, n int) []int {
@@ -409,6 +475,16 @@ func genConc(r *core.RNG, tier string) *concScenario {
 		sc.Body = bodySpec{Kind: "corpus", Corpus: "NC_001422.gb", Repeat: r.Range(1, 4)}
 	}
 	sc.Seeded = r.Chance(1, 4)
+	two := r.Chance(1, 3)
+	if two {
+		k2 := [2]string{randKey(r, size), randKey(r, size)}
+		b2 := bodySpec{Kind: []string{"text", "random"}[r.Intn(2)], Len: r.Range(1, 30000), Seed: r.U64()}
+		sc.Key2, sc.Body2 = &k2, &b2
+	}
+	afters := []string{"", "", "", "close-twice", "discard-after-close"}
+	for i := r.Pick([]int{5, 2, 1}); i > 0; i-- {
+		sc.Prelude = append(sc.Prelude, concParty{Role: "writer", Writes: genWrites(r), KillAt: -1, Key: r.Intn(2), After: afters[r.Intn(len(afters))]})
+	}
 	np := r.Range(2, 3)
 	for i := 0; i < np; i++ {
 		p := concParty{Role: []string{"writer", "writer", "writer", "failing-writer", "reader"}[r.Intn(5)], Writes: genWrites(r), KillAt: -1}
@@ -422,6 +498,10 @@ func genConc(r *core.RNG, tier string) *concScenario {
 			p.KillAt = r.Intn(60)
 			p.Torn = r.Intn(300)
 		}
+		if two {
+			p.Key = r.Intn(2)
+		}
+		p.After = afters[r.Intn(len(afters))]
 		sc.Parties = append(sc.Parties, p)
 	}
 	// bursts: a party runs for a while, then another; short bursts around the
@@ -523,6 +603,23 @@ func concCandidates(sc *concScenario) []*concScenario {
 		c := clone()
 		c.Seeded = false
 		out = append(out, c)
+	}
+	for i := range sc.Prelude {
+		c := clone()
+		c.Prelude = append(c.Prelude[:i], c.Prelude[i+1:]...)
+		out = append(out, c)
+	}
+	if sc.Key2 != nil {
+		c := clone()
+		c.Key2, c.Body2 = nil, nil
+		out = append(out, c)
+	}
+	for i, p := range sc.Parties {
+		if p.After != "" {
+			c := clone()
+			c.Parties[i].After = ""
+			out = append(out, c)
+		}
 	}
 	for _, nb := range []bodySpec{{Kind: "text", Len: 1, Seed: 1}, {Kind: "text", Len: 200, Seed: 1}, {Kind: "random", Len: 5000, Seed: 1}} {
 		if len(nb.bytes()) < len(sc.Body.bytes()) {
